@@ -110,8 +110,13 @@ pub fn check_case(basesc: &Sc, n: u128, l: u128, x: u128, stake: bool, min: u128
                 }
             }
             // the totals the contract recorded
-            if let Ok(b) = sc.qy(json!({"pending_batch": {}})) {
-                let _ = b;
+            if crate::model::rate_in_bounds(n + x, l + minted) {
+                if let Ok(st) = sc.qy(json!({"state": {}})) {
+                    let (n2, l2) = (vu128(&st, "total_native_token"), vu128(&st, "total_liquid_stake_token"));
+                    if n2 != n + x || l2 != l + minted {
+                        v.push(format!("stake {x} at {n}/{l}: totals became {n2}/{l2}, expected {}/{}", n + x, l + minted));
+                    }
+                }
             }
             return (v, "stake-ok");
         } else {
@@ -150,6 +155,19 @@ pub fn check_case(basesc: &Sc, n: u128, l: u128, x: u128, stake: bool, min: u128
             // (N-u)*L >= N*(L-b)
             if exp <= n && mul128(n - exp, l) < mul128(n, l - x) {
                 v.push(format!("submit of {x} at {n}/{l} set aside {exp}: redemption rate lowered"));
+            }
+            // the totals the contract keeps: N - set aside, L - burned (State is only queried where its
+            // fixed-point rate is representable)
+            if exp <= n && crate::model::rate_in_bounds(n - exp, l - x) {
+                if let Ok(st) = sc.qy(json!({"state": {}})) {
+                    let (n2, l2) = (vu128(&st, "total_native_token"), vu128(&st, "total_liquid_stake_token"));
+                    if n2 != n - exp || l2 != l - x {
+                        v.push(format!("submit of {x} at {n}/{l}: totals became {n2}/{l2}, expected {}/{}", n - exp, l - x));
+                    }
+                    if mul128(n2, l) < mul128(n, l2) {
+                        v.push(format!("submit of {x} at {n}/{l}: remaining holders' rate lowered to {n2}/{l2}"));
+                    }
+                }
             }
             return (v, "submit-ok");
         } else {
